@@ -30,8 +30,30 @@ def build_graph(A, srname, style):
     return G
 
 
+GRAPH_PRE = ("solve_right", "solve_left", "blocks", "buckets", "Blocks", "closure_scc", "closure_ref", "closure")
+
+
+def warm_graph(G, pre, style):
+    """Earlier queries on the SAME graph object: they must not change any later answer."""
+    R = G.WeightType
+    for name in pre or ():
+        if name in ("solve_right", "solve_left"):
+            b = R.chart()
+            b[node(style, 0)] = R.one
+            getattr(G, name)(b)
+        elif name == "closure_scc":
+            G.closure_scc_based()
+        elif name == "closure_ref":
+            G.closure_reference()
+        elif name == "closure":
+            G.closure()
+        else:
+            getattr(G, name)
+
+
 def f_closure(a):
     G = build_graph(a["A"], a["sr"], a.get("style", "int"))
+    warm_graph(G, a.get("pre"), a.get("style", "int"))
     inv = {node(a.get("style", "int"), k): k for k in range(a["A"]["n"])}
     how = a["how"]
     if how == "scc":
@@ -50,6 +72,7 @@ def f_closure(a):
 
 def f_solve(a):
     G = build_graph(a["A"], a["sr"], a.get("style", "int"))
+    warm_graph(G, a.get("pre"), a.get("style", "int"))
     st = a.get("style", "int")
     inv = {node(st, k): k for k in range(a["A"]["n"])}
     R = G.WeightType
@@ -63,6 +86,7 @@ def f_solve(a):
 
 def f_blocks(a):
     G = build_graph(a["A"], a["sr"], a.get("style", "int"))
+    warm_graph(G, a.get("pre"), a.get("style", "int"))
     st = a.get("style", "int")
     inv = {node(st, k): k for k in range(a["A"]["n"])}
     blocks = G.blocks
